@@ -102,6 +102,11 @@ fn run_one(cx: &Ctx<'_>, cfg: &NetCfg, ops: &[Op], prefix: &[usize], allow_dev: 
             let hh = &h;
             let ok = drive(world, &mut ch, &|| hh.is_finished(), Duration::from_secs(900), &|| vec![], &mut |_| {}, &mut |_| {}).await;
             cx.distinct.eval();
+            if ch.diverged() {
+                // the recorded prefix could not be replayed: not an execution of the explored space, not judged
+                h.abort();
+                break;
+            }
             if !ok || !h.is_finished() {
                 cx.run.violation_lazy("C03.term", fe("operation-did-not-finish", "put/get"), || (wit(json!({}), oi), "operation did not complete within the horizon".to_string()));
                 h.abort();
